@@ -64,6 +64,9 @@ claimed.update({
 claimed['C20']=dict(engine='sqlskeleton',level='exploration',technique='exhaustive enumeration of filter keys x operators x wrappers x options x hostile strings against the real query builders over a recording SQL driver; PostgreSQL-lexer token-skeleton comparison',design='§7-C20',
    text='Every list/count method of the store (accounts, transactions, aggregated balances, logs) x every accepted key and operator x $and/$or/$not wrappers x PIT / volumes options, called directly and through the v2 (JSON body) and v1 (query parameter) handlers, x address shapes x 40 hostile strings: the request is rejected, or the SQL text sent has exactly the token skeleton of the same request with a harmless value of the same shape (the client text stays inside one literal).',
    note='bun renders arguments client-side (pgdialect quoting); the lexer models standard_conforming_strings=on; contents of jsonb/jsonpath literals are not interpreted.')
+claimed['C17']=dict(engine='cursorwalk',level='model_checking',technique='explicit exploration of the cursor-token graph of the real pagination library over an in-memory SQL table (all collection sizes x page sizes x orders x filters); exhaustive token round trips for every filter expression to depth 2',design='§7-C17',
+   text='bunpaginate.UsingColumn / UsingOffset are walked over collections of 0..8 items (ids dense and with gaps) x page sizes 1..9 x both orders x with/without a filter: following next until hasMore=false yields the (filtered) collection exactly once in order, previous of page k+1 yields page k, every token decodes to the same query. For the store listings (transactions, accounts, logs) every filter expression to depth 2 over the accepted keys, PIT on/off: the cursor the server hands out decodes and issues exactly the same SQL, directly and through GET ?cursor=.',
+   note='minidb (a 150-line SQL subset executor) stands in for PostgreSQL for the single-table queries of the library walk; store listings are compared by emitted SQL text, not executed (no PostgreSQL in the sandbox).')
 order=[p['id'] for p in props]
 checks=[]
 for pid in order:
@@ -87,7 +90,7 @@ m={"version":1,"setup_cmd":"./setup.sh",
  "engines":[
   {"name":"nsgen","path":"/verif/xverif/lib/nsgen","serves_properties":["C01","C03","C08","C12"],"kind_free_text":"bounded-exhaustive Numscript program/input enumerator + reference semantics, run against the real compiler and VM"},
   {"name":"gosched","path":"/verif/engine/verifrt + /verif/xverif/cmd/instr + /verif/xverif/lib/explore + /verif/xverif/cmd/vsched","serves_properties":["C02","C05","C06","C07","C10","C11","C15","C16"],"kind_free_text":"controlled cooperative scheduler (verifrt) + source instrumenter + stateless DFS explorer with deviation bounding, sharded over worker processes; runs the real Commander / locker / batcher / job runner"},
-  {"name":"vcheck","path":"/verif/xverif/cmd/vcheck","serves_properties":["C09","C13","C14","C18","C19","C20"],"kind_free_text":"small exhaustive enumerators driving the real Commander / routers / codecs (memstore, recording backend)"},
+  {"name":"vcheck","path":"/verif/xverif/cmd/vcheck","serves_properties":["C09","C13","C14","C17","C18","C19","C20"],"kind_free_text":"small exhaustive enumerators driving the real Commander / routers / codecs (memstore, recording backend)"},
  ],
  "checks":checks,"not_applicable":na,
  "notes":"See DESIGN.md. All deciding steps are complete enumerations of explicitly bounded spaces run on the repository's code rebuilt from /repo's working tree. Genuine defects found are repaired by 'fix:' commits in /repo and listed as fixed in known_findings.json."}
